@@ -94,6 +94,8 @@ class C13:
             # KEYWORD-ONLY constructor fields (dataclass kw_only=True): declared anywhere, they come after every positional parameter
             # in the signature - the k-th positional argument is the k-th parameter of the SIGNATURE, not the k-th declared field
             cs['kwonly'] = []
+            if rng.random() < 0.15:
+                cs['falsy'] = True        # instances with a user __bool__ returning False
             classes.append(cs)
             if sig_len(classes, c) > 4:
                 cs['own'] = 0
@@ -135,9 +137,12 @@ class C13:
             single = False
             if shared_d is not None:
                 d = list(shared_d)               # ONE From object is the source of every term of the case
-            elif rng.random() < 0.08:
-                # the domain is a single VALUE (let(T, value) / T(From(value))), of the type or not
-                d, single = [want if want is not None and rng.random() < 0.6 else rng.randrange(nobj)], True
+            elif rng.random() < (0.45 if classes[T].get('falsy') else 0.08):
+                # the domain is a single VALUE (let(T, value) / T(From(value))), of the type or not (for a class with falsy
+                # instances mostly an instance: a falsy object is still the domain)
+                own = [i_ for i_ in range(nobj) if is_sub(classes, heap[i_]['cls'], T)]
+                d, single = [want if want is not None and rng.random() < 0.6 else rng.choice(own) if own and classes[T].get('falsy')
+                             else rng.randrange(nobj)], True
             inst = [i_ for i_ in d if is_sub(classes, heap[i_]['cls'], T)]
             target = want if (want in inst and rng.random() < 0.8) else (rng.choice(inst) if inst else None)
             n = sig_len(classes, T)
